@@ -126,6 +126,7 @@ type betweenCase struct {
 	Seat     int    `json:"seat"`                // the seat chosen (filled in by the run)
 	Ghosts   int    `json:"ghosts,omitempty"`    // players who took that seat and left again before the newcomer came
 	GhostSat bool   `json:"ghost_sat,omitempty"` // ... and had sat in
+	Visits   []int  `json:"visits,omitempty"`    // per following hand: another empty seat that somebody tries and leaves again (-1 = nobody)
 	Trace    string `json:"trace,omitempty"`
 }
 
@@ -185,6 +186,17 @@ func runBetween(c *betweenCase) (v *vlib.Violation, valid bool) {
 	passed := false
 	prev := d
 	for i := 0; i < 2*c.Max; i++ {
+		// passers-by on other empty seats change nothing for the newcomer
+		if i < len(c.Visits) && c.Visits[i] >= 0 {
+			if s := c.Visits[i] % c.Max; s != x && !taken[s] {
+				if _, err := m.Join(s, "visitor"); err == nil {
+					if c.GhostSat {
+						m.Seat(s)
+					}
+					m.Leave(s)
+				}
+			}
+		}
 		if err := m.Next(); err != nil {
 			return vlib.V("C08", "newcomer/next-refused", "%s: Next() failed with everybody staying put: %v", tr, err), true
 		}
@@ -228,11 +240,14 @@ func TestNewcomerBetween(t *testing.T) {
 			c.Ghosts = rapid.IntRange(1, 2).Draw(rt, "ghosts")
 			c.GhostSat = rapid.Bool().Draw(rt, "ghostSat")
 		}
+		if rapid.IntRange(0, 2).Draw(rt, "visitors") == 0 {
+			c.Visits = rapid.SliceOfN(rapid.IntRange(-1, c.Max-1), 0, 2*c.Max).Draw(rt, "visits")
+		}
 		v, valid := runBetween(c)
 		st.Evaluations++
 		if valid {
 			st.Class("valid-in-between-seat")
-			st.NonTrivial(vlib.Hash(c.Max, c.Seated, c.Nexts, c.Seat, c.Ghosts, c.GhostSat))
+			st.NonTrivial(vlib.Hash(c.Max, c.Seated, c.Nexts, c.Seat, c.Ghosts, c.GhostSat, c.Visits))
 			st.ClassIf(c.Ghosts > 0, "seat-tried-and-left-before")
 			st.Sample(c)
 		}
